@@ -435,36 +435,43 @@ static void cmd_get(int nt, char **t) { int h = hidx(t[1]), h2 = hidx(t[2]); (vo
 static void cmd_alias(int nt, char **t) { int h = hidx(t[1]), h2 = hidx(t[2]); (void)nt; H[h2] = H[h]; Hset[h2] = 1; ob_puts(&out, "= ok"); }
 
 static char *keyarg(const char *t) { size_t n; return (char *)unhex(t, &n); }
+/* the same, but the key starts at a rotating offset 0..7 inside its block: callers' name pointers have every alignment (free *base) */
+static unsigned key_rot;
+static char *keyarg_mis(const char *t, char **base)
+{
+	size_t n; unsigned char *x = unhex(t, &n); unsigned off = key_rot++ & 7; char *b = (char *)malloc(n + 9);
+	memcpy(b + off, x, n); b[off + n] = 0; free(x); *base = b; return b + off;
+}
 
 /* OADD <hobj> <key> <hval> <opts>  -> = <ret> del=.. */
 #define NCONST 64
 static char *constkeys[NCONST]; static int nconst;
 static void cmd_oadd(int nt, char **t)
 {
-	int ho = hidx(t[1]), hv = hidx(t[3]); unsigned opts = nt > 4 ? (unsigned)L(t[4]) : 0; char *k = keyarg(t[2]); int r;
+	int ho = hidx(t[1]), hv = hidx(t[3]); unsigned opts = nt > 4 ? (unsigned)L(t[4]) : 0; char *kbase; char *k = keyarg_mis(t[2], &kbase); int r;
 	if (opts & JSON_C_OBJECT_ADD_CONSTANT_KEY) {
 		/* immortal keys: interned for the life of the process */
 		int i; for (i = 0; i < nconst; i++) if (!strcmp(constkeys[i], k)) break;
 		if (i == nconst && nconst < NCONST) constkeys[nconst++] = strdup(k);
-		if (i < nconst) { free(k); k = NULL; r = json_object_object_add_ex(H[ho], constkeys[i], H[hv], opts); }
+		if (i < nconst) { r = json_object_object_add_ex(H[ho], constkeys[i], H[hv], opts); }
 		else r = json_object_object_add_ex(H[ho], k, H[hv], opts & ~JSON_C_OBJECT_ADD_CONSTANT_KEY);
 	} else if (opts == 0 && (L(t[1]) & 1)) r = json_object_object_add(H[ho], k, H[hv]);
 	else r = json_object_object_add_ex(H[ho], k, H[hv], opts);
-	free(k);
+	free(kbase);
 	ob_printf(&out, "= %d", r); emit_dlog();
 }
-static void cmd_odel(int nt, char **t) { int ho = hidx(t[1]); char *k = keyarg(t[2]); (void)nt; json_object_object_del(H[ho], k); free(k); ob_puts(&out, "= ok"); emit_dlog(); }
+static void cmd_odel(int nt, char **t) { int ho = hidx(t[1]); char *kb; char *k = keyarg_mis(t[2], &kb); (void)nt; json_object_object_del(H[ho], k); free(kb); ob_puts(&out, "= ok"); emit_dlog(); }
 /* OGET <hobj> <key> [hdst]  -> = <found> <uid> <ptr==NULL> */
 static void cmd_oget(int nt, char **t)
 {
-	int ho = hidx(t[1]); char *k = keyarg(t[2]); struct json_object *v = (struct json_object *)0x1; json_bool f = json_object_object_get_ex(H[ho], k, &v);
+	int ho = hidx(t[1]); char *kb; char *k = keyarg_mis(t[2], &kb); struct json_object *v = (struct json_object *)0x1; json_bool f = json_object_object_get_ex(H[ho], k, &v);
 	struct json_object *v2 = json_object_object_get(H[ho], k);
 	ob_printf(&out, "= %d %ld %d same=%d", (int)f, uid_of(v), v == NULL, v2 == v);
 	/* documented corner forms: no result pointer (existence test), no object */
 	{ struct json_object *v4 = (struct json_object *)0x1; json_bool f3 = json_object_object_get_ex(H[ho], k, NULL), f4 = json_object_object_get_ex(NULL, k, &v4);
 	  ob_printf(&out, " exists=%d noobj=%d,%d", (int)f3, (int)f4, v4 == NULL); }
 	if (nt > 3) { int hd = hidx(t[3]); H[hd] = v; Hset[hd] = 1; }
-	free(k);
+	free(kb);
 }
 static void cmd_olen(int nt, char **t) { int ho = hidx(t[1]); (void)nt; ob_printf(&out, "= %d", json_object_object_length(H[ho])); }
 
@@ -539,6 +546,13 @@ static void cmd_ains(int nt, char **t) { int r; (void)nt; r = json_object_array_
 static void cmd_adel(int nt, char **t) { int r; (void)nt; r = json_object_array_del_idx(H[hidx(t[1])], SZ(t[2]), SZ(t[3])); ob_printf(&out, "= %d", r); emit_dlog(); }
 static void cmd_ashrink(int nt, char **t) { int r; (void)nt; r = json_object_array_shrink(H[hidx(t[1])], (int)L(t[2])); ob_printf(&out, "= %d", r); emit_dlog(); }
 static void cmd_aget(int nt, char **t) { int hd = hidx(t[3]); struct json_object *v = json_object_array_get_idx(H[hidx(t[1])], SZ(t[2])); (void)nt; H[hd] = v; Hset[hd] = 1; ob_printf(&out, "= %ld %d", uid_of(v), v == NULL); }
+/* ASUM <harr> -> = len=<n> cap=<size> nonnull=<count> uidsum=<sum of uids> first=<index of first non-null | -1> last=<index of last non-null | -1>   (whole-array digest for huge arrays) */
+static void cmd_asum(int nt, char **t)
+{
+	struct json_object *a = H[hidx(t[1])]; size_t n = json_object_array_length(a), i, nn = 0; long sum = 0, first = -1, last = -1; struct array_list *al = json_object_get_array(a); (void)nt;
+	for (i = 0; i < n; i++) { struct json_object *v = json_object_array_get_idx(a, i); if (v) { nn++; sum += uid_of(v); if (first < 0) first = (long)i; last = (long)i; } if (!(i & 0xFFFFF)) vf_progress++; }
+	ob_printf(&out, "= len=%zu cap=%zu nonnull=%zu uidsum=%ld first=%ld last=%ld", n, al->size, nn, sum, first, last);
+}
 /* ADUMP <harr> -> = len=<n> cap=<size> e=<uid|n>,... (indices 0..len+2) */
 static void cmd_adump(int nt, char **t)
 {
@@ -576,7 +590,7 @@ static void cmd_uids(int nt, char **t) { (void)nt; ob_puts(&out, "="); uids_rec(
 static void cmd_pset(int nt, char **t)
 {
 	int hr = hidx(t[1]), hv = hidx(t[3]); char *p = keyarg(t[2]); int rc; (void)nt;
-	errno = 0; rc = json_pointer_set(&H[hr], p, H[hv]);
+	errno = vf_ambient_errno_v > 0 ? vf_ambient_errno_v : 0; rc = json_pointer_set(&H[hr], p, H[hv]);
 	ob_printf(&out, "= %d %d", rc, errno); emit_dlog(); free(p);
 }
 
@@ -584,7 +598,7 @@ static void cmd_pset(int nt, char **t)
 static void cmd_pget(int nt, char **t)
 {
 	int hr = hidx(t[1]); char *p = keyarg(t[2]); int mode = nt > 3 ? (int)L(t[3]) : 0; struct json_object *res = (struct json_object *)0x1; int rc;
-	errno = 0;
+	errno = vf_ambient_errno_v > 0 ? vf_ambient_errno_v : 0;
 	if (mode == 1) rc = json_pointer_getf(H[hr], &res, "%s", p);
 	else if (mode == 2) { rc = json_pointer_get(H[hr], p, NULL); res = NULL; }
 	else rc = json_pointer_get(H[hr], p, &res);
@@ -596,7 +610,7 @@ static void cmd_pget(int nt, char **t)
 static void cmd_psetf(int nt, char **t)
 {
 	int hr = hidx(t[1]), hv = hidx(t[3]); char *p = keyarg(t[2]); int rc; (void)nt;
-	errno = 0; rc = json_pointer_setf(&H[hr], H[hv], "%s", p);
+	errno = vf_ambient_errno_v > 0 ? vf_ambient_errno_v : 0; rc = json_pointer_setf(&H[hr], H[hv], "%s", p);
 	ob_printf(&out, "= %d %d", rc, errno); emit_dlog(); free(p);
 }
 
@@ -971,6 +985,7 @@ static void dispatch(int nt, char **t)
 	else if (!strcmp(c, "ASHRINK")) cmd_ashrink(nt, t);
 	else if (!strcmp(c, "AGET")) cmd_aget(nt, t);
 	else if (!strcmp(c, "ADUMP")) cmd_adump(nt, t);
+	else if (!strcmp(c, "ASUM")) cmd_asum(nt, t);
 	else if (!strcmp(c, "ASORT")) cmd_asort(nt, t);
 	else if (!strcmp(c, "ABS")) cmd_abs(nt, t);
 	else if (!strcmp(c, "SSTR")) cmd_sstr(nt, t);
